@@ -76,113 +76,26 @@ func checkC16(c *vh.Ctx) {
 	root := filepath.Join(c.Scratch, "runs")
 	os.MkdirAll(root, 0o755)
 	nRuns := c.N(320, 4800)
-	c.Res.Rule = fmt.Sprintf("%d generated whole simulations (2-3 years, rotations of the 12 shipped annual crops, generated automan.txt, all 16 combinations of the four automation switches in turn, four date formats); evaluations = simulated days and rotation entries judged; non-trivial = distinct (run, rotation entry) that was sown or harvested", nRuns)
+	c.Res.Rule = fmt.Sprintf("%d generated whole simulations (2-3 years, rotations of the 12 shipped annual crops, generated automan.txt, all 16 combinations of the four automation switches in turn, four date formats); evaluations = simulated days and rotation entries judged; plus triples of projects with different automan.txt for the same crops in one session (sequential in two orders and overlapping) compared with their solo runs; non-trivial = distinct (run, rotation entry) that was sown or harvested", nRuns)
 	var cases, impl []string
 	inputs := map[string]interface{}{}
 	for k := 0; k < nRuns; k++ {
 		c16Run(c, c.Rng.Fork(), k, root, &cases, &impl, inputs)
 	}
 	c.Correspond("rotation.day", cases, impl, 0, 0, func(i int) interface{} { return inputs[cases[i]] })
+	c16SessionStage(c)
 }
 
 func c16Run(c *vh.Ctx, r *vh.Rng, k int, root string, cases, impl *[]string, inputs map[string]interface{}) {
 	name := fmt.Sprintf("r%d", k)
 	p := proj.Gen(r, name, proj.Opt{Years: r.Range(2, 3), MaxLayers: 10})
-	start, end := p.Start(), p.End()
-	autoMan, autoHar, autoIrr, autoFert := k&1 != 0, k&2 != 0, k&4 != 0, k&8 != 0
-	p.Cfg["AutoSowingHarvest"], p.Cfg["AutoHarvest"], p.Cfg["AutoIrrigation"], p.Cfg["AutoFertilization"] = onOffSch(autoMan), onOffSch(autoHar), onOffSch(autoIrr), onOffSch(autoFert)
-	sw := fmt.Sprintf("man%s-har%s-irr%s-fert%s", onOffSch(autoMan), onOffSch(autoHar), onOffSch(autoIrr), onOffSch(autoFert))
-	annD, annM := r.Range(1, 28), r.Range(1, 12)
-	format := (k / 16) % 4
-	p.SetFormat(format, end, annD, annM)
-	s0 := start.Z()
-	if autoMan || autoHar {
-		p.Til = nil // tillage between (moved) sowing and harvest dates would reject the run
-	}
-	// schedules free of the C10 findings (they are not this property's subject)
-	var fert []proj.FertEv
-	for _, e := range p.Fert {
-		if e.Date.Z() > s0+1 && (len(fert) == 0 || e.Date.Z() > fert[len(fert)-1].Date.Z()+2) {
-			fert = append(fert, e)
-		}
-	}
-	p.Fert = fert
-	var irr []proj.IrrEv
-	for _, e := range p.Irr {
-		if e.Date.Z() >= s0 {
-			irr = append(irr, e)
-		}
-	}
-	p.Irr = irr
-	table := map[string]proj.AutoEntry{}
-	var entries []proj.AutoEntry
-	for _, cc := range proj.Crops {
-		a := genAutoEntry(r, cc)
-		table[cc.Code] = a
-		entries = append(entries, a)
-	}
-	if autoFert {
-		for i := range p.Rot {
-			if r.Chance(0.2) {
-				p.Rot[i].AutOrg = 1
-			}
-		}
-	}
+	cs := c16Prepare(r, p, k, (k/16)%4)
+	autoMan, autoHar, autoIrr, autoFert, sw, format, table, entries, s0 := cs.AutoMan, cs.AutoHar, cs.AutoIrr, cs.AutoFert, cs.Sw, cs.Format, cs.Table, cs.Entries, cs.S0
 	replay := map[string]interface{}{"project": p, "automan": entries, "switches": sw, "date_format": format,
 		"how": "proj.Project JSON + automan entries: Project.Write, WriteManagementConf, WriteAutoman, proj.Run (harness/cmd/check/c16.go c16Run)"}
 	nRot := len(p.Rot)
-	expS, expS1, expS2, expE, expE2 := make([]int, nRot), make([]int, nRot), make([]int, nRot), make([]int, nRot), make([]int, nRot)
-	expE[0], expE2[0] = s0, s0
-	if autoHar {
-		expE2[0] = 0 // input.go:419-426 is skipped for every entry with AutoHarvest, the start entry gets ERNTE only (:548)
-	}
-	for i := 1; i < nRot; i++ {
-		a := table[p.Rot[i].Crop]
-		sow, har := p.Rot[i].Sow, p.Rot[i].Harvest
-		if autoMan {
-			if a.Sow1M == 0 {
-				expS[i], expS1[i], expS2[i] = sow.Z(), sow.Z()-1, sow.Z()
-			} else {
-				expS1[i] = proj.Date{Y: sow.Y, M: a.Sow1M, D: a.Sow1D}.Z()
-				expS2[i] = proj.Date{Y: sow.Y, M: a.Sow2M, D: a.Sow2D}.Z()
-			}
-		} else {
-			expS[i] = sow.Z()
-		}
-		if autoHar {
-			if a.Har2M == 0 {
-				expE2[i] = har.Z()
-			} else {
-				expE2[i] = proj.Date{Y: har.Y, M: a.Har2M, D: a.Har2D}.Z()
-			}
-		} else {
-			expE[i], expE2[i] = har.Z(), har.Z()
-		}
-	}
-	// placeholder entry behind the last rotation entry (input.go, `if SCHLAG != g.PKT`): window one year after the
-	// last sowing date / the end of the last sowing window
-	lastBase := expS[nRot-1]
-	if lastBase == 0 {
-		lastBase = expS2[nRot-1]
-	}
-	// the property's premise per entry: the sowing window opens after the latest harvest date of the predecessor
-	premise := make([]bool, nRot+2)
-	for i := 1; i < nRot; i++ {
-		prevLatest := expE2[i-1]
-		if expE[i-1] > prevLatest {
-			prevLatest = expE[i-1]
-		}
-		open := expS1[i]
-		if !autoMan {
-			open = expS[i]
-		} else if expS[i] > 0 {
-			open = expS[i]
-		}
-		premise[i] = open > prevLatest
-		if autoMan && expS[i] == 0 && !(expS1[i] <= expS2[i] && expS2[i] < expE2i(expE[i], expE2[i])-1) {
-			premise[i] = false // window not before the latest harvest date: configuration outside the property
-		}
-	}
+	ex := c16Expect(p, cs)
+	expS, expS1, expS2, expE, expE2, premise, lastBase := ex.S, ex.S1, ex.S2, ex.E, ex.E2, ex.Premise, ex.LastBase
 
 	premiseAll := true
 	for i := 1; i < nRot; i++ {
@@ -447,6 +360,126 @@ func c16Run(c *vh.Ctx, r *vh.Rng, k int, root string, cases, impl *[]string, inp
 	if k < 2 {
 		c.Sample(map[string]interface{}{"run": name, "switches": sw, "rotation": p.Rot, "sown_on": sowDay[:nRot], "harvested_on": harDay[:nRot], "windows_from": expS1, "windows_to": expS2, "latest_harvest": expE2, "records": recs})
 	}
+}
+
+// c16Case: one generated C16 project: automation switches, date format, generated automan table.
+type c16Case struct {
+	AutoMan, AutoHar, AutoIrr, AutoFert bool
+	Sw                                  string
+	Format, S0                          int
+	Table                               map[string]proj.AutoEntry
+	Entries                             []proj.AutoEntry
+}
+
+// c16Prepare sets the switches (bits of k), the date format, schedules free of the C10 known findings and
+// draws an automan.txt line for every shipped crop.
+func c16Prepare(r *vh.Rng, p *proj.Project, k, format int) *c16Case {
+	start, end := p.Start(), p.End()
+	autoMan, autoHar, autoIrr, autoFert := k&1 != 0, k&2 != 0, k&4 != 0, k&8 != 0
+	p.Cfg["AutoSowingHarvest"], p.Cfg["AutoHarvest"], p.Cfg["AutoIrrigation"], p.Cfg["AutoFertilization"] = onOffSch(autoMan), onOffSch(autoHar), onOffSch(autoIrr), onOffSch(autoFert)
+	sw := fmt.Sprintf("man%s-har%s-irr%s-fert%s", onOffSch(autoMan), onOffSch(autoHar), onOffSch(autoIrr), onOffSch(autoFert))
+	annD, annM := r.Range(1, 28), r.Range(1, 12)
+	p.SetFormat(format, end, annD, annM)
+	s0 := start.Z()
+	if autoMan || autoHar {
+		p.Til = nil // tillage between (moved) sowing and harvest dates would reject the run
+	}
+	// schedules free of the C10 findings (they are not this property's subject)
+	var fert []proj.FertEv
+	for _, e := range p.Fert {
+		if e.Date.Z() > s0+1 && (len(fert) == 0 || e.Date.Z() > fert[len(fert)-1].Date.Z()+2) {
+			fert = append(fert, e)
+		}
+	}
+	p.Fert = fert
+	var irr []proj.IrrEv
+	for _, e := range p.Irr {
+		if e.Date.Z() >= s0 {
+			irr = append(irr, e)
+		}
+	}
+	p.Irr = irr
+	table := map[string]proj.AutoEntry{}
+	var entries []proj.AutoEntry
+	for _, cc := range proj.Crops {
+		a := genAutoEntry(r, cc)
+		table[cc.Code] = a
+		entries = append(entries, a)
+	}
+	if autoFert {
+		for i := range p.Rot {
+			if r.Chance(0.2) {
+				p.Rot[i].AutOrg = 1
+			}
+		}
+	}
+	return &c16Case{AutoMan: autoMan, AutoHar: autoHar, AutoIrr: autoIrr, AutoFert: autoFert, Sw: sw, Format: format, S0: s0, Table: table, Entries: entries}
+}
+
+// c16Exp: the rotation arrays the rotation file and automan.txt configure, and the property's premise per entry.
+type c16Exp struct {
+	S, S1, S2, E, E2 []int
+	Premise          []bool
+	LastBase         int
+}
+
+func c16Expect(p *proj.Project, cs *c16Case) *c16Exp {
+	autoMan, autoHar, table, s0 := cs.AutoMan, cs.AutoHar, cs.Table, cs.S0
+	nRot := len(p.Rot)
+	expS, expS1, expS2, expE, expE2 := make([]int, nRot), make([]int, nRot), make([]int, nRot), make([]int, nRot), make([]int, nRot)
+	expE[0], expE2[0] = s0, s0
+	if autoHar {
+		expE2[0] = 0 // input.go:419-426 is skipped for every entry with AutoHarvest, the start entry gets ERNTE only (:548)
+	}
+	for i := 1; i < nRot; i++ {
+		a := table[p.Rot[i].Crop]
+		sow, har := p.Rot[i].Sow, p.Rot[i].Harvest
+		if autoMan {
+			if a.Sow1M == 0 {
+				expS[i], expS1[i], expS2[i] = sow.Z(), sow.Z()-1, sow.Z()
+			} else {
+				expS1[i] = proj.Date{Y: sow.Y, M: a.Sow1M, D: a.Sow1D}.Z()
+				expS2[i] = proj.Date{Y: sow.Y, M: a.Sow2M, D: a.Sow2D}.Z()
+			}
+		} else {
+			expS[i] = sow.Z()
+		}
+		if autoHar {
+			if a.Har2M == 0 {
+				expE2[i] = har.Z()
+			} else {
+				expE2[i] = proj.Date{Y: har.Y, M: a.Har2M, D: a.Har2D}.Z()
+			}
+		} else {
+			expE[i], expE2[i] = har.Z(), har.Z()
+		}
+	}
+	// placeholder entry behind the last rotation entry (input.go, `if SCHLAG != g.PKT`): window one year after the
+	// last sowing date / the end of the last sowing window
+	lastBase := expS[nRot-1]
+	if lastBase == 0 {
+		lastBase = expS2[nRot-1]
+	}
+	// the property's premise per entry: the sowing window opens after the latest harvest date of the predecessor
+	premise := make([]bool, nRot+2)
+	for i := 1; i < nRot; i++ {
+		prevLatest := expE2[i-1]
+		if expE[i-1] > prevLatest {
+			prevLatest = expE[i-1]
+		}
+		open := expS1[i]
+		if !autoMan {
+			open = expS[i]
+		} else if expS[i] > 0 {
+			open = expS[i]
+		}
+		premise[i] = open > prevLatest
+		if autoMan && expS[i] == 0 && !(expS1[i] <= expS2[i] && expS2[i] < expE2i(expE[i], expE2[i])-1) {
+			premise[i] = false // window not before the latest harvest date: configuration outside the property
+		}
+	}
+
+	return &c16Exp{S: expS, S1: expS1, S2: expS2, E: expE, E2: expE2, Premise: premise, LastBase: lastBase}
 }
 
 func expE2i(e, e2 int) int {
